@@ -35,7 +35,7 @@ def baseline():
 def is_helper(F, name):
     """A crate-local function with one body that the pinned tree does not have (and that is not a closure / trait impl item)."""
     base = baseline()
-    if base is None or os.environ.get("VERIF_NO_INLINE"):
+    if base is None or os.environ.get("VERIF_NO_INLINE") or getattr(F, "no_inline", False):
         return False
     if name in base or name not in F.bodies or len(F.bodies[name]) != 1:
         return False
